@@ -29,6 +29,7 @@ def gen_case(rnd, tier):
         "mono": rnd.random() < 0.5,
         "special": rnd.choice([0.0, 0.1, 0.25]),
         "m0_none": rnd.random() < 0.1,
+        "m0_int": rnd.random() < 0.15,
     }
 
 
@@ -37,7 +38,9 @@ def run_impl(c):
     from .probes import FnTarget
 
     t = FnTarget(c["d"], seed=c["tseed"], special_rate=c["special"])
-    m0 = None if c["m0_none"] else numpy.array(c["m0"], dtype=float).reshape(c["d"], 1)
+    if c.get("m0_int"):
+        c["m0"] = [float(round(v)) for v in c["m0"]]       # a starting model of whole numbers, integer dtype
+    m0 = None if c["m0_none"] else numpy.array(c["m0"], dtype=(int if c.get("m0_int") else float)).reshape(c["d"], 1)
     m0_copy = None if m0 is None else m0.copy()
     with contextlib.redirect_stdout(io.StringIO()), contextlib.redirect_stderr(io.StringIO()), numpy.errstate(all="ignore"):
         m, x, ms, xs = gradient_descent(t, m0, c["eps"], c["iterations"], c["reg"], c["mono"], disable_progressbar=True)
